@@ -168,6 +168,15 @@ def run(ck, tier):
             bs = _fmt_of(cx, barg, bf, b)
             ck.ob('R1', bf.qn, "string packed as '<n>s' with n = len(value)", bs is not None and bs[1] == 's' and any('len(' in m for m in bs[3]),
                   detail='string-builder %s' % U(barg)[:60], loc=cx.floc(bf))
+            # n is the length of the very bytes that are packed (struct truncates / pads silently otherwise)
+            same = False
+            if isinstance(barg, ast.Call) and len(barg.args) == 2:
+                packed = U(barg.args[1])
+                lens = [U(c.args[0]) for c in ast.walk(barg.args[0]) if isinstance(c, ast.Call) and isinstance(c.func, ast.Name) and c.func.id == 'len' and c.args]
+                same = bool(lens) and all(l_ == packed for l_ in lens)
+            ck.ob('R1', bf.qn, "the length in the string format is the length of the bytes that are packed", same, detail='string-length-of-other-object',
+                  loc=cx.floc(bf), message='add_string builds its format from len(...) of something other than the bytes it packs (%s): a text string with '
+                                           'non-ASCII characters is truncated and every later field shifts' % U(barg)[:80])
             ck.ob('R1', df.qn, 'string returned as the raw slice', isinstance(ret, ast.Subscript), detail='string-decoder', loc=cx.floc(df))
             continue
         bs = _fmt_of(cx, barg, bf, b)
